@@ -24,6 +24,7 @@ Definition good_bin (op : binop) (a b : value) (n : nat) : trace * outcome :=
   else match op with
        | BLooseEq => match a, b with
                      | VStr x, VStr y => ([], Val (VBool (zlist_eqb x y)))
+                     | VNum x, VNum y => ([], Val (VBool (num_eq x y)))
                      | _, _ => (t, Val (VBool false))
                      end
        | BAdd => if is_str a || is_str b then (t, Val (VStr []))
@@ -79,6 +80,7 @@ Proof.
     destruct (is_arith op) eqn:E; [destruct op; discriminate|]. rewrite Hr.
     destruct a, b; eauto.
   - intros a b n Ha Hb. rewrite Ha, Hb. cbn. destruct a, b; eauto.
+  - reflexivity.
   - reflexivity.
   - reflexivity.
   - reflexivity.
